@@ -293,6 +293,13 @@ def decisions(F):
     t = vf.render(r, b, short=True, vfx=v)
     m = re.search(r"Ok\(\(Some\(Atomic::fetch_add\(self\.next_handle, 1, Relaxed\)\), (.*), None\)\)\}$", t)
     got["do_open/options"] = [[m.group(1)]] if m else [["?"]]
+    # 4b. ... and those of create
+    b = c08.pfs_method(F, "create")
+    v = vf.VF(b, inline_depth=0)
+    ov = vf.def_value(v, b, "opts")
+    t = vf.render(v.ret(), b, short=True, vfx=v)
+    m = re.search(r"OpenOptions(?:\{bits: |::)(?:.(?!OpenOptions\{))*?cache_policy.*?(?=, None\)\)|\)\)\}$)", t)
+    got["create/options"] = [[re.sub(r"\s+", " ", x)] for x in sorted(set(re.findall(r"discr\(self\.cfg\.cache_policy\)[^|}]*=> [^|}]*", t)))]
     # 5. every xattr entry point is switched by the configuration
     for nm in ("getxattr", "listxattr", "setxattr", "removexattr"):
         b = c08.pfs_method(F, nm)
@@ -354,6 +361,12 @@ def r6_fields(ctx, F):
                       "setattr stores `%s` into tvs[%s].%s under %s: slot %s is the %s time and takes %s/%s_nsec under %sTIME (UTIME_NOW under %sTIME_NOW) only"
                       % (val, idx, fld, [t for (t, l) in g if "TIME" in t and l != 0], idx, "access" if X == "A" else "modification", tname, tname, X, X),
                       loc=b.loc(s[3]), detail=str([t for (t, l) in g if "TIME" in t][-2:]))
+    for c in live_calls(b):
+        if c.name in ("futimens", "utimensat"):
+            g = [(vf.render(x, b, short=True), l) for (x, l, u) in v.guards(c.bb)]
+            ctx.check(rule, "utimens/%s/requested" % c.name, ("SetattrValid::intersects(valid, SetattrValid::bitor(ATIME, MTIME))", "otherwise") in g
+                      or ("SetattrValid::intersects(valid, SetattrValid::bitor(MTIME, ATIME))", "otherwise") in g,
+                      "setattr calls %s under %s; the times are set exactly when ATIME or MTIME is requested" % (c.name, [t for (t, l) in g if "TIME" in t]), loc=c.loc())
     need = {(X, f, k) for X in "AM" for (f, k) in (("tv_nsec", "now"), ("tv_sec", "explicit"), ("tv_nsec", "explicit"))}
     ctx.check(rule, "utimens/all-six-stores", need <= seen, "setattr no longer fills %s" % sorted(need - seen), loc=b.loc())
     # ---- statx -> stat64: every field comes from its namesake
